@@ -88,6 +88,12 @@ CHECKS = {
         "note": "Transposition/best-key judged when the top-two correlation gap exceeds 1e-9, arbitrary scale factors when it exceeds 1e-5; constant distributions not judged; MIDI files grid-aligned without self-overlap.",
         "technique": "property-based testing (Hypothesis): validity predicates, metamorphic relations, differential oracle against an own key-profile correlation",
     },
+    "C09": {
+        "text": "Bar-level structures from a grammar (plain, simple repeat, voltas [1][2] / [1,2][3] / three endings, nested repeats, D.C./D.S./fine/coda/to-coda marks in textbook and arbitrary arrangements, ties/slurs/tuplets across segment boundaries, division and signature changes inside repeats) are unfolded with every entry point (maximal, minimal, iter_unfolded_parts, make_score_variants, get_paths+new_part_from_path) x update_ids x ignore_leaps x Part/Score argument; an independent interpreter gives the exact maximal/minimal bar sequence whenever no da capo/dal segno is present and a permissive path predicate otherwise; every returned part is checked for length, one copy per note per visit (pitch, duration, voice, staff, -k ids, divisions in force), no brackets/jump marks left, time-point chain, closure of all references, 2^r variants for r simple repeats, equal fingerprint without repeats, untouched argument. Exploration.",
+        "design_ref": "DESIGN.md 4 C09",
+        "note": "Marks stand on bar lines; exact navigation semantics after a jump are not demanded; every call gets a freshly built part; 'all variants' policies only when the estimated number of paths is <= 1500; five open findings (Segment bookkeeping left in the argument; four defects of the leap/volta segment logic) mask their symptom kinds.",
+        "technique": "property-based testing (Hypothesis grammar-based generation) against an independent unfolding interpreter + identity snapshot of the argument",
+    },
     "C10": {
         "text": "Generated parts with 0-n time signatures (first one late, missing, or only the last kept), key signatures with all fifths/modes incl. a missing mode, clefs on 1-3 staves incl. staves without a clef and parts without any clef, regular/irregular measures, pickups, notated and musical beat mode; time_signature_map, key_signature_map, clef_map, measure_map, measure_number_map and metrical_position_map are queried at every integer position as one array and as scalars at all change points, bar lines and an even sample, and compared with 'latest element at or before t / first one before it / documented default' and with the measure extents computed from the abstract spec. Exploration.",
         "design_ref": "DESIGN.md 4 C10",
